@@ -421,6 +421,24 @@ func runW(r *ev.Run) bool {
 			}
 		}
 	}
+	// P2SH scriptSig shapes: push-only requirement, extra items, non-canonical pushes
+	{
+		redeems := map[string][]byte{"OP_1": one, "1 1 ADD 2 EQUAL": {0x51, 0x51, refscript.OP_ADD, 0x52, refscript.OP_EQUAL}, "DEPTH 0 EQUAL": {refscript.OP_DEPTH, 0x00, refscript.OP_EQUAL}, "empty": {}}
+		pre := map[string][]byte{"none": nil, "NOP": {refscript.OP_NOP}, "1 DROP": {0x51, refscript.OP_DROP}, "1": {0x51}, "0": {0x00}, "RESERVED-in-dead-branch": {0x00, refscript.OP_IF, 0x50, refscript.OP_ENDIF}, "1NEGATE": {0x4f}, "16": {0x60}}
+		post := map[string][]byte{"none": nil, "NOP": {refscript.OP_NOP}, "DUP DROP": {refscript.OP_DUP, refscript.OP_DROP}, "CODESEPARATOR": {refscript.OP_CODESEPARATOR}}
+		for _, rn := range sortedKeys(redeems) {
+			rd := redeems[rn]
+			pushForms := map[string][]byte{"canonical": push(rd), "PUSHDATA1": cat([]byte{0x4c, byte(len(rd))}, rd), "PUSHDATA2": cat([]byte{0x4d, byte(len(rd)), 0}, rd)}
+			for _, pn := range sortedKeys(pre) {
+				for _, qn := range sortedKeys(post) {
+					for _, fn := range sortedKeys(pushForms) {
+						ss := cat(pre[pn], pushForms[fn], post[qn])
+						c.add("W/p2sh-scriptsig", fmt.Sprintf("redeem=%s scriptSig=%s + %s push + %s", rn, pn, fn, qn), env.spend(p2shScript(rd), ss, nil), allFlagSets)
+					}
+				}
+			}
+		}
+	}
 	// witness data on plain (non-witness) outputs
 	for _, wn := range wnames {
 		wit := witnesses[wn]
